@@ -478,7 +478,10 @@ func runC18draw(t *rapid.T) {
 		}
 		m.Resize(nw, nh)
 		ss.Show()
-		m.Painted(true)
+		m.Painted(false)
+		// the rendering rule holds at the new size too (a wide rune that is
+		// now in the last column is a blank; one that no longer is, is shown)
+		compare("after SetSize and Show")
 		simrt.Sleep("settle", hx.Ms(1))
 		if fail == nil {
 			if len(resizes) != n0+1 || resizes[len(resizes)-1] != fmt.Sprintf("%dx%d", nw, nh) {
